@@ -1,12 +1,61 @@
-/- Driver ops for the Merge model. Stub until the model lands. -/
+/- Driver ops for the Merge model (`PypyrModel/Merge.lean`), area "merge". -/
 import Lean.Data.Json
 import PypyrModel.Json
+import PypyrModel.Fmt
+import PypyrModel.FmtHeap
+import PypyrModel.Merge
 
 namespace Pypyr.OpMerge
-open Lean (Json)
+open Lean (Json JsonNumber)
+open Pypyr.Merge
 
-/-- Handle one request object (already parsed); `Except.error` = protocol-level reject. -/
-def handle (_op : String) (_j : Json) : Except String Json :=
-  .error "not implemented"
+def fuelOf (j : Json) : Nat :=
+  match j.getObjVal? "fuel" with
+  | .ok f => (jsonNat? f).toOption.getD 64
+  | .error _ => 64
+
+def okVal (v : Val) : Bool := FmtHeap.wfVal v && FmtHeap.keysHashable v
+
+def rootOfJson (j : Json) : Except String Pairs := do
+  match ← Val.ofJson j with
+  | .dict kvs =>
+    if !okVal (.dict kvs) then throw "context breaks the dict/set representation invariant"
+    pure kvs
+  | _ => throw "context must be a dict"
+
+def traceJ (t : Trace) : Json :=
+  Json.arr (t.map fun w => Json.arr #[Json.arr (w.1.map Val.toJson).toArray, Json.bool w.2]).toArray
+
+def result (r : Except Exc (Pairs × Trace)) : Except String Json :=
+  match r with
+  | .error e => if e.name == "OutOfDomain" then .error ("out of domain: " ++ e.msg)
+                else .ok (Json.mkObj [("err", e.toJson)])
+  | .ok (root, t) =>
+    if !FmtHeap.keysHashable (.dict root) then .error "out of domain: result has an unhashable key or set member"
+    else .ok (Json.mkObj [("ok", Json.mkObj [("ctx", (Val.dict root).toJson), ("trace", traceJ t)])])
+
+/-- ops: `merge` {ctx, add, fuel?} → `Context.merge`; `defaults` {ctx, add} → `Context.set_defaults`;
+    `step` {ctx, which: "contextmerge" | "default"} → the step's `run_step`. -/
+def handle (op : String) (j : Json) : Except String Json := do
+  match op with
+  | "merge" =>
+    let root ← rootOfJson (← j.getObjVal? "ctx")
+    let add ← Val.ofJson (← j.getObjVal? "add")
+    if !okVal add then throw "incoming value breaks the representation invariant"
+    result (merge (fuelOf j) root add)
+  | "defaults" =>
+    let root ← rootOfJson (← j.getObjVal? "ctx")
+    let add ← Val.ofJson (← j.getObjVal? "add")
+    if !okVal add then throw "incoming value breaks the representation invariant"
+    result (setDefaults (fuelOf j) root add)
+  | "step" =>
+    let root ← rootOfJson (← j.getObjVal? "ctx")
+    let which ← (← j.getObjVal? "which").getStr?
+    let useDefaults ← match which with
+      | "contextmerge" => pure false
+      | "default" => pure true
+      | _ => throw s!"unknown step {which}"
+    result ((runStep useDefaults (fuelOf j) root).map fun r => (r, []))
+  | _ => .error s!"unknown op {op}"
 
 end Pypyr.OpMerge
